@@ -16,7 +16,16 @@ import (
 // events (applied just before message k is handed over): c<k> sink closes the connection,
 // r<k> sink resets it (tcp), d<k> sink closes it and stops listening, u<k> sink listens again,
 // s<k> (unix, tcp) message k is larger than the socket buffers, the sink stalls until the producer is
-// blocked in the middle of writing it and then closes / resets the connection.
+// blocked in the middle of writing it and then closes / resets the connection,
+// z<k> (unix, tcp) message k is larger than the socket buffers, the sink stays connected but does not read for
+// 3.5 s (VERIF_PRODUCER_STALL_MS) while it is being written, then reads everything: no fault, everything must arrive.
+//
+// Stall cases cost seconds each, so there are few of them, at fixed places counted from the END of the run: the
+// last line and every 1250th before it. A quick run (200 lines) gets exactly one, a thorough run (50000 lines
+// over up to 16 shards) 40 to 48. The hook runs the lines that carry a z event in a lane of their own, started at
+// once, next to the other lines: coming last, the stall case is over before the rest of the shard is.
+const producerStallEvery = 1250
+
 func init() {
 	kinds["producer"] = &kind{gen: genProducer, run: nil}
 }
@@ -24,6 +33,10 @@ func init() {
 func genProducer(r *rand.Rand, n int, w *bufio.Writer) {
 	retries := []int{0, 0, 1, 1, 2, 2, 3, 5}
 	for i := 0; i < n; i++ {
+		if (n-1-i)%producerStallEvery == 0 && n >= 100 {
+			genProducerStall(r, w, n <= producerStallEvery)
+			continue
+		}
 		proto := "unix"
 		switch p := r.Intn(100); {
 		case p >= 85:
@@ -78,4 +91,61 @@ func genProducer(r *rand.Rand, n int, w *bufio.Writer) {
 		}
 		fmt.Fprintf(w, "producer %s %d %d %d %s\n", proto, rm, r.Int63n(1<<40), nm, ev)
 	}
+}
+
+// genProducerStall prints one case with a silent-but-connected sink: tcp or unix, few messages. `single`
+// (the one case of a quick run): exactly one stall and nothing else; otherwise one or two stalls, and in
+// every second case ordinary faults (close, reset, down / up, kill in mid-write) before, at or after them.
+func genProducerStall(r *rand.Rand, w *bufio.Writer, single bool) {
+	proto := "tcp"
+	if r.Intn(2) == 0 {
+		proto = "unix"
+	}
+	retries := []int{0, 1, 2, 2, 3, 5}
+	rm := retries[r.Intn(len(retries))]
+	nm := 8 + r.Intn(17)
+	type ev struct {
+		c byte
+		k int
+	}
+	evs := []ev{{'z', 1 + r.Intn(nm-2)}}
+	if !single {
+		if r.Intn(2) == 0 {
+			// a second stall: the very next message, or a later one
+			k := evs[0].k + 1 + r.Intn(2)*r.Intn(nm)
+			if k < nm {
+				evs = append(evs, ev{'z', k})
+			}
+		}
+		if r.Intn(2) == 0 {
+			up := true
+			k := 1 + r.Intn(nm-2) // never 0: the sink may not have accepted the first connection yet
+			for e, ne := 0, 1+r.Intn(3); e < ne && k < nm-1; e++ {
+				c := byte('u')
+				if up {
+					c = "ccdrs"[r.Intn(5)]
+					if c == 'r' && proto != "tcp" {
+						c = 'c'
+					}
+				}
+				up = c != 'd'
+				evs = append(evs, ev{c, k})
+				k += r.Intn(5)
+			}
+			if !up && k < nm-1 {
+				evs = append(evs, ev{'u', k})
+			}
+		}
+	}
+	// by message index, the faults of an index before its stall (stable: the order of generation otherwise)
+	for i := 1; i < len(evs); i++ {
+		for j := i; j > 0 && (evs[j].k < evs[j-1].k || (evs[j].k == evs[j-1].k && evs[j-1].c == 'z' && evs[j].c != 'z')); j-- {
+			evs[j], evs[j-1] = evs[j-1], evs[j]
+		}
+	}
+	var parts []string
+	for _, e := range evs {
+		parts = append(parts, fmt.Sprintf("%c%d", e.c, e.k))
+	}
+	fmt.Fprintf(w, "producer %s %d %d %d %s\n", proto, rm, r.Int63n(1<<40), nm, strings.Join(parts, ","))
 }
